@@ -14,7 +14,7 @@ clamped value is what an ASCII variable then prints back (observation recorded i
 import SecsModel.Proofs.Decimal
 import SecsModel.Model.Parser
 import SecsModel.Model.Print
-import SecsModel.Props.C09
+import SecsModel.Proofs.FillLeaf
 namespace Secs.C15
 open Secs Secs.Sml Secs.Strconv
 
@@ -118,7 +118,7 @@ valid ASCII item) -/
 theorem fill_enforces (n : Name) (mn mx : Int) (env : Env) (s : Bytes) (h : env.get? n = some (.str s)) :
     (fillLeaf (.asciiVar n mn mx) env).isSome = true ↔
       (mn ≤ s.length ∧ (mx = -1 ∨ (s.length : Int) ≤ mx) ∧ (mkAscii s).isSome = true) := by
-  rw [C09.fill_ascii_var n mn mx env s h]
+  rw [FillLeaf.fill_ascii_var n mn mx env s h]
   by_cases hc : (s.length : Int) < mn ∨ (mx ≠ -1 ∧ mx < (s.length : Int))
   · rw [if_pos hc]
     simp only [Option.isSome_none, Bool.false_eq_true, false_iff, not_and]
